@@ -58,6 +58,8 @@ Vals(a) == LET r == DRef(a) IN [j \in 1..Len(r.el) |-> r.el[j].v]
 Els(a) == DRef(a).el
 \* does the stage raise on some example?
 Failing(a) == a.op \in {"lfmap", "lpmap"} /\ a.p.pn # "never"
+\* prefetch with a worker pool (>= 2 workers) instead of the single prefetch thread
+IsPool(a) == a.op = "prefetch" /\ a.w >= 2
 
 \* Is the chain free of eager operations (then construction must log nothing)?
 RECURSIVE AllLazy(_)
@@ -158,6 +160,12 @@ Down0(a, rq) ==
          IN IF rq.exh THEN ReqAll(nin)
             ELSE IF rq.mex THEN MayRest(Range(1, m1), nin)
             ELSE Req(Range(1, m1), Range(m1 + 1, m2))
+    [] IsPool(a) ->
+         \* a worker pool reads its input BY INDEX, in order, and has at most
+         \* buffer_size calls submitted beyond what the consumer received
+         LET last == MaxOf(rq.pos \o rq.may)
+         IN IF rq.exh THEN IdxReq(Range(1, nin), <<>>)
+            ELSE IdxReq(rq.pos, rq.may \o Range(last + 1, Min2(nin, last + a.bs)))
     [] a.op = "prefetch" ->
          \* the worker runs at most buffer_size + 2 ahead of the consumer
          LET last == MaxOf(rq.pos \o rq.may)
@@ -191,8 +199,12 @@ Atoms(x) == CASE x.t = "i" -> <<x.n>>
 \* Expected calls of every logging stage for a request on the top of `a`:
 \* sequence of [s |-> stage id, must |-> seq of argument atom-lists that MUST
 \* be logged in this order, may |-> further ones that MAY follow in order]
-RECURSIVE Expect(_, _)
-Expect(a, rq) ==
+\* un: the calls of this stage are made by SEVERAL pool threads (the stage is a
+\* parallel map with >= 2 workers, or sits below a pool prefetch): their order
+\* in the log is the order the threads happened to run, so they are compared
+\* as bags
+RECURSIVE ExpectP(_, _, _)
+ExpectP(a, rq, par) ==
   IF a.op \in {"list", "dict"} THEN <<>>
   ELSE LET vin == Vals(a.in)
            ein == Els(a.in)
@@ -202,9 +214,11 @@ Expect(a, rq) ==
            ArgsAt(ps) == LET qs == SelectIdx(ps, LAMBDA q : ein[q].ok, 1)
                          IN [j \in 1..Len(qs) |-> Atoms(vin[ps[qs[j]]])]
            mine == IF a.op \in {"lmap", "lfmap", "lpmap"} \/ (a.op = "lfilter" /\ a.lazy)
-                   THEN <<[s |-> a.s, must |-> ArgsAt(here.pos), may |-> ArgsAt(here.may)]>>
+                   THEN <<[s |-> a.s, must |-> ArgsAt(here.pos), may |-> ArgsAt(here.may),
+                           un |-> par \/ (a.op = "lpmap" /\ a.w >= 2)]>>
                    ELSE <<>>
-       IN Expect(a.in, here) \o mine
+       IN ExpectP(a.in, here, par \/ IsPool(a)) \o mine
+Expect(a, rq) == ExpectP(a, rq, FALSE)
 
 -----------------------------------------------------------------------------
 (* Verdict on the logs of one real program.  logs:                         *)
@@ -219,11 +233,15 @@ IsPrefix(x, y) == Len(x) <= Len(y) /\ \A j \in 1..Len(x) : x[j] = y[j]
 
 \* the calls of every stage are exactly `must`, possibly followed by a
 \* prefix of `may`; no stage outside the expectation is called
+CountIn(x, sq) == Cardinality({j \in 1..Len(sq) : sq[j] = x})
+SubBag(x, y) == \A j \in 1..Len(x) : CountIn(x[j], x) <= CountIn(x[j], y)
 Matches(calls, exp) ==
   /\ \A j \in 1..Len(exp) :
         LET c == CallsOf(calls, exp[j].s) IN
-        /\ IsPrefix(exp[j].must, c)
-        /\ IsPrefix(c, exp[j].must \o exp[j].may)
+        IF exp[j].un
+        THEN SubBag(exp[j].must, c) /\ SubBag(c, exp[j].must \o exp[j].may)
+        ELSE /\ IsPrefix(exp[j].must, c)
+             /\ IsPrefix(c, exp[j].must \o exp[j].may)
   /\ \A j \in 1..Len(calls) : \E m \in 1..Len(exp) : exp[m].s = calls[j].s
 
 V_C08(a, logs) ==
@@ -277,8 +295,12 @@ Ops(s) ==
     [op |-> "cache", s |-> s, lazy |-> TRUE],
     [op |-> "catch", s |-> s, E |-> "Filter"],
     [op |-> "prefetch", s |-> s, w |-> 1, bs |-> 1, cfe |-> "none"],
-    [op |-> "prefetch", s |-> s, w |-> 1, bs |-> 2, cfe |-> "none"]>>
+    [op |-> "prefetch", s |-> s, w |-> 1, bs |-> 2, cfe |-> "none"],
+    [op |-> "prefetch", s |-> s, w |-> 2, bs |-> 2, cfe |-> "none"]>>
   \o (IF WithShuffle THEN <<[op |-> "rshuffle", s |-> s, seed |-> 7]>> ELSE <<>>)
+
+RECURSIVE HasPool(_)
+HasPool(a) == IF a.op \in {"list", "dict"} THEN FALSE ELSE IsPool(a) \/ HasPool(a.in)
 
 Apply(desc, a) == [x \in (DOMAIN desc) \cup {"in"} |-> IF x = "in" THEN a ELSE desc[x]]
 
@@ -293,8 +315,11 @@ Applicable(d, a) ==
   CASE d.op = "slice" -> Indexable(a)
     [] d.op = "lfilter" /\ ~d.lazy -> Indexable(a)
     [] d.op \in {"cache", "catch"} -> Indexable(a)
+    [] IsPool(d) -> Indexable(a)
     [] d.op = "unbatch" -> Vals(a) # <<>> /\ \A j \in 1..Len(Vals(a)) : Vals(a)[j].t = "L"
-    [] d.op = "items" -> DRef(a).kcap # "none" /\ a.op \notin {"batch", "unbatch"}
+    \* (items() above a pool prefetch is refused loudly by the library:
+    \*  PrefetchDataset has no keys() to hand to its pool)
+    [] d.op = "items" -> DRef(a).kcap # "none" /\ a.op \notin {"batch", "unbatch"} /\ ~HasPool(a)
     [] OTHER -> TRUE
 
 Init == depth = 0 /\ \E j \in 1..Len(Sources) : prog = Sources[j]
